@@ -1,4 +1,5 @@
 import GoagModel.Serve
+import GoagModel.Router
 /-
   C14 — no generated slice expression is out of range (the checked-slicing model of DESIGN §4.14).
 
@@ -196,5 +197,89 @@ theorem splitPathC_parts (s a b : List Char) (h : splitPathC s = some (a, b)) : 
 example : splitPathC "/pets/7".toList = some ("/pets".toList, "/7".toList) := by decide
 example : splitPathC "/".toList = some ("/".toList, []) := by decide
 example : goIndexSlash "ab/c".toList = some 2 := by decide
+
+end Goag.Serve
+
+namespace Goag.Serve
+
+/-- what `splitPath` computes, in one line: the first `"/"+segment` and everything after it -/
+theorem splitPathC_spec (rest : List Char) :
+    splitPathC ('/' :: rest) = some ('/' :: rest.takeWhile (· != '/'), rest.dropWhile (· != '/')) := by
+  unfold splitPathC
+  simp only [sliceFrom, List.length_cons, Nat.le_add_left, if_true, List.drop_succ_cons, List.drop_zero]
+  obtain ⟨hle, htake, hdrop⟩ := goIndexSlash_spec rest
+  cases hi : goIndexSlash rest with
+  | none =>
+    simp only [hi, Option.getD_none] at htake hdrop
+    simp only [List.take_length] at htake
+    simp only [List.drop_length] at hdrop
+    simp [← htake, ← hdrop]
+  | some idx =>
+    simp only [hi, Option.getD_some] at htake hdrop hle
+    have hle' : idx + 1 ≤ rest.length + 1 := by omega
+    simp [sliceTo, hle', htake, hdrop]
+
+end Goag.Serve
+
+namespace Goag.Serve
+open Goag.Router
+
+/-- `strings.Split(s, "/")` one segment at a time -/
+theorem splitSlashAux_step (cur s : List Char) :
+    splitSlashAux cur s =
+      (cur.reverse ++ s.takeWhile (· != '/')) ::
+        (match s.dropWhile (· != '/') with
+         | [] => []
+         | _ :: r => splitSlashAux [] r) := by
+  induction s generalizing cur with
+  | nil => simp [splitSlashAux]
+  | cons c cs ih =>
+    by_cases hc : c = '/'
+    · subst hc
+      simp [splitSlashAux, List.takeWhile, List.dropWhile]
+    · have hne : (c != '/') = true := by simp [bne_iff_ne, hc]
+      simp only [splitSlashAux, hc, if_false, List.takeWhile, List.dropWhile, hne]
+      rw [ih (c :: cur)]
+      simp
+
+/-- the router peels one `"/"+segment` per tree level with `splitPath`; doing so until nothing is
+    left visits exactly the segments `strings.Split` gives for the path: the level-by-level walk of
+    the generated router and the one-shot segmentation of the routing model see the same path -/
+def peel : Nat → List Char → List (List Char)
+  | 0, _ => []
+  | n + 1, p =>
+    match splitPathC p with
+    | some ('/' :: seg, rest) => seg :: (match rest with | [] => [] | _ => peel n rest)
+    | _ => []
+
+theorem peel_eq_split : ∀ (n : Nat) (cs : List Char), cs.length < n → peel n ('/' :: cs) = splitSlash cs := by
+  intro n
+  induction n with
+  | zero => intro cs h; omega
+  | succ n ih =>
+    intro cs h
+    simp only [peel, splitPathC_spec]
+    unfold splitSlash
+    rw [splitSlashAux_step [] cs]
+    simp only [List.reverse_nil, List.nil_append]
+    cases hd : cs.dropWhile (· != '/') with
+    | nil => rfl
+    | cons d r =>
+      have hdslash : d = '/' := by
+        have := List.head?_dropWhile_not (· != '/') cs
+        simp only [hd, List.head?_cons] at this
+        simpa using this
+      subst hdslash
+      have hlen : r.length < n := by
+        have h1 : (cs.dropWhile (· != '/')).length ≤ cs.length := (List.dropWhile_sublist _).length_le
+        rw [hd] at h1
+        simp only [List.length_cons] at h1
+        omega
+      simp only [List.cons.injEq, true_and]
+      have := ih r hlen
+      unfold splitSlash at this
+      exact this
+
+example : peel 20 "/pets/7/".toList = ["pets".toList, "7".toList, []] := by decide
 
 end Goag.Serve
